@@ -5,13 +5,16 @@ Import ListNotations.
 From BM Require Import Bytes Utf8 Strings Tokenizer Policy Url Style Attrs Loop GenTables.
 Open Scope N_scope.
 
+Lemma flat_map_fixed {A} (f : A -> list A) : forall l, (forall b, In b l -> f b = [b]) -> flat_map f l = l.
+Proof.
+  induction l as [|a l IH]; intros H; cbn [flat_map]; [reflexivity|].
+  rewrite (H a (or_introl eq_refl)), IH; [reflexivity|]. intros b Hb. apply H. right. exact Hb.
+Qed.
 Lemma flat_map_idem {A} (f : A -> list A) :
-  (forall a, f a = [a] \/ f a = []) -> forall l, flat_map f (flat_map f l) = flat_map f l.
+  (forall a b, In b (f a) -> f b = [b]) -> forall l, flat_map f (flat_map f l) = flat_map f l.
 Proof.
   intros Hf. induction l as [|a l IH]; cbn [flat_map]; [reflexivity|].
-  rewrite flat_map_app, IH. destruct (Hf a) as [E|E]; rewrite E; cbn [flat_map app].
-  - rewrite E. reflexivity.
-  - reflexivity.
+  rewrite flat_map_app, IH. f_equal. apply flat_map_fixed. intros b Hb. exact (Hf a b Hb).
 Qed.
 
 Lemma crossorigin_elements_linkable : forallb (fun x => mem x linkable_elements) crossorigin_elements = true.
@@ -24,19 +27,41 @@ Section AttrIdem.
   Variable I : interp M U R.
   Variable p : policy M U R.
 
-  Lemma filter_attr_cases elem aps a : has_style_policies I p elem = false ->
-    filter_attr I p elem aps false a = [a] \/ filter_attr I p elem aps false a = [].
+  (* the style filter, applied to its own result, changes nothing (vacuous for elements without style rules);
+     a statement about the declaration parser composed with the filter, see StyleIdem.v *)
+  Definition style_stable (elem : bytes) : Prop :=
+    has_style_policies I p elem = true ->
+    forall v, sanitize_styles I p elem v <> [] ->
+    sanitize_styles I p elem (sanitize_styles I p elem v) = sanitize_styles I p elem v.
+
+  Lemma style_stable_none elem : has_style_policies I p elem = false -> style_stable elem.
+  Proof. intros H H'. congruence. Qed.
+
+  (* what the filtering loop keeps of an attribute, it keeps unchanged when it sees it again *)
+  Lemma filter_attr_kept elem aps a b : style_stable elem ->
+    In b (filter_attr I p elem aps (has_style_policies I p elem) a) ->
+    filter_attr I p elem aps (has_style_policies I p elem) b = [b].
   Proof.
-    intros _. unfold filter_attr. destruct (allowDataAttributes p && is_data_attribute (akey a)); [left; reflexivity|].
-    rewrite andb_false_r. destruct (rules_accept I aps a); [left; reflexivity|].
-    destruct (rules_accept I (globalAttrs p) a); [left | right]; reflexivity.
+    intros Hst Hb. unfold filter_attr in Hb.
+    destruct (allowDataAttributes p && is_data_attribute (akey a)) eqn:Ed.
+    { destruct Hb as [<-|[]]. unfold filter_attr. rewrite Ed. reflexivity. }
+    destruct (key_is (B"style") a && has_style_policies I p elem) eqn:Es.
+    { apply andb_true_iff in Es as [Ek Eh].
+      destruct (sanitize_styles I p elem (aval a)) as [|c0 v0] eqn:Ev; [contradiction|]. destruct Hb as [<-|[]].
+      unfold filter_attr. cbn [akey aval fst snd]. change (fst a) with (akey a). rewrite Ed.
+      change (key_is (B"style") (akey a, c0 :: v0)) with (key_is (B"style") a). rewrite Ek, Eh. cbn [andb].
+      rewrite <- Ev, (Hst Eh (aval a)) by (rewrite Ev; discriminate). rewrite Ev. reflexivity. }
+    destruct (rules_accept I aps a) eqn:E1.
+    { destruct Hb as [<-|[]]. unfold filter_attr. rewrite Ed, Es, E1. reflexivity. }
+    destruct (rules_accept I (globalAttrs p) a) eqn:E2; [|contradiction].
+    destruct Hb as [<-|[]]. unfold filter_attr. rewrite Ed, Es, E1, E2. reflexivity.
   Qed.
 
   (* for an element the later passes do not touch, sanitizeAttrs is the filtering loop *)
-  Lemma sanitize_attrs_plain elem attrs aps : linkable elem = false -> has_style_policies I p elem = false ->
-    sanitize_attrs I p elem attrs aps = flat_map (filter_attr I p elem aps false) attrs.
+  Lemma sanitize_attrs_plain elem attrs aps : linkable elem = false ->
+    sanitize_attrs I p elem attrs aps = flat_map (filter_attr I p elem aps (has_style_policies I p elem)) attrs.
   Proof.
-    intros Hl Hs. unfold sanitize_attrs. destruct attrs as [|a0 ar]; [reflexivity|]. rewrite Hs, Hl.
+    intros Hl. unfold sanitize_attrs. destruct attrs as [|a0 ar]; [reflexivity|]. rewrite Hl.
     set (clean := flat_map _ (a0 :: ar)). destruct clean as [|c0 cl] eqn:Ec; [reflexivity|]. rewrite <- Ec.
     assert (Hc : mem elem crossorigin_elements = false).
     { destruct (mem elem crossorigin_elements) eqn:E; [|reflexivity]. apply mem_In in E.
@@ -49,13 +74,13 @@ Section AttrIdem.
     unfold sandbox_pass. rewrite Hi. destruct (requireSandbox p); reflexivity.
   Qed.
 
-  Theorem clean_attrs_idem_plain elem a aps : linkable elem = false -> has_style_policies I p elem = false ->
+  Theorem clean_attrs_idem_plain elem a aps : linkable elem = false -> style_stable elem ->
     clean_attrs I p elem (clean_attrs I p elem a aps) aps = clean_attrs I p elem a aps.
   Proof.
     intros Hl Hs.
-    assert (E : forall l, clean_attrs I p elem l aps = flat_map (filter_attr I p elem aps false) l).
+    assert (E : forall l, clean_attrs I p elem l aps = flat_map (filter_attr I p elem aps (has_style_policies I p elem)) l).
     { intros l. unfold clean_attrs. destruct l; [reflexivity|]. apply sanitize_attrs_plain; assumption. }
-    rewrite !E. apply flat_map_idem. intros x. apply filter_attr_cases. exact Hs.
+    rewrite !E. apply flat_map_idem. intros x b Hb. apply (filter_attr_kept elem aps x b Hs Hb).
   Qed.
 End AttrIdem.
 Arguments clean_attrs_idem_plain {M U R} I p elem a aps.
